@@ -97,6 +97,9 @@ func c11judged() []Choice {
 		tx("change_param(owner, wrong type)", chain.TxSpec{Msg: "change_param", From: 4, Key: "pos/StakeMinimum", Val: `"abc"`}),
 		tx("change_param(unknown key)", chain.TxSpec{Msg: "change_param", From: 4, Key: "pos/Nope", Val: `"1"`}),
 		tx("change_param(no separator)", chain.TxSpec{Msg: "change_param", From: 4, Key: "nokey", Val: `"1"`}),
+		tx("change_param(unknown parameter space, by the owner)", chain.TxSpec{Msg: "change_param", From: 4, Key: "nosuchspace/SomeParam", Val: `"1"`}),
+		tx("change_param(unknown parameter space, by a stranger)", chain.TxSpec{Msg: "change_param", From: 3, Key: "nosuchspace/SomeParam", Val: `"1"`}),
+		tx("change_param(three path elements)", chain.TxSpec{Msg: "change_param", From: 3, Key: "pos/StakeMinimum/x", Val: `"1"`}),
 		tx("upgrade(non owner)", chain.TxSpec{Msg: "upgrade", From: 3, Height: 99, Val: "2.0"}),
 		tx("dao_transfer(non owner)", chain.TxSpec{Msg: "dao_transfer", From: 3, To: 2, Amount: 5}),
 		tx("dao_transfer(overdraft)", chain.TxSpec{Msg: "dao_transfer", From: 4, To: 2, Amount: 1000 * min}),
@@ -427,7 +430,7 @@ func init() {
 		Run: func(sc *Scenario, blocks []chain.Block) HistResult {
 			return RunC11History(sc.Cfg, sc.Prelude, blocks)
 		},
-		Rule:   "catalogue of judged calls: undecodable/corrupted bytes (6), ValidateBasic failures (6), unusual accepted transfers judged if rejected (5), ante failures (6), handler precondition failures and handler panics (19), CheckTx (4), Simulate (5), Query (26: store key/subspace/proof/heights, custom queries of all modules, app, p2p, malformed paths); each placed alone, before, between and after valid transactions, and after every pair of context blocks (stake, begin-unstake, missed vote, double-sign evidence, raised minimum stake, transfer); non-trivial = a state-changing transaction also succeeded in the history",
+		Rule:   "catalogue of judged calls: undecodable/corrupted bytes (6), ValidateBasic failures (6), unusual accepted transfers judged if rejected (5), ante failures (6), handler precondition failures and handler panics (22), CheckTx (4), Simulate (5), Query (26: store key/subspace/proof/heights, custom queries of all modules, app, p2p, malformed paths); each placed alone, before, between and after valid transactions, and after every pair of context blocks (stake, begin-unstake, missed vote, double-sign evidence, raised minimum stake, transfer); non-trivial = a state-changing transaction also succeeded in the history",
 		QuickS: 240, ThoroughS: 1500,
 		Assume: []string{"a transaction counts as refused-before-the-handler when its result carries no message/action event; otherwise the handler ran and only signer -> fee collector may move", "the control run removes the read-only calls and must produce byte-identical consensus responses and app hashes"},
 	})
